@@ -2,6 +2,7 @@
      L <S|U> <filter: - o e n> <depth0> <items: - or comma ints> <script: - or iterations '/'-separated, queries ','-separated>
         queries: L I J R r F T P N Y<k> Cx C<v> D d
         -> M <else 0|1> <item:ans;ans|...> S <else> <...>      (model run_for, spec on the filtered items)
+     L ... <script> <ctls: - or G|C|B per iteration>   the same with loop controls (run_for_ctl, cut)
      T <depth0> <forest>      forest = trees, tree = (label tree ...)
         -> M label:depth0,... S label:depth0,... *)
 open Loop_x
@@ -54,6 +55,20 @@ let () =
   try while true do
     let line = input_line stdin in
     match String.split_on_char ' ' line with
+    | "L" :: k :: f :: d0 :: items :: script :: ctls :: [] ->
+      (* with loop controls: ctls = - or G/C/B per iteration, comma separated *)
+      let kind = if k = "S" then Sized else Unsized in
+      let xs = parse_items items in
+      let sc = parse_script script in
+      let cs = if ctls = "-" then [] else List.map (fun c -> match c with "B" -> Break | "C" -> Continue | _ -> Go) (String.split_on_char ',' ctls) in
+      let d0 = z_of_int (int_of_string d0) in
+      let filtered = f <> "-" in
+      let m = (match run_for_ctl kind filtered (pred f) d0 xs sc cs with
+        | None -> "fuel"
+        | Some o -> (if o.else_taken then "1 " else "0 ") ^ show_its o.visited) in
+      let ys = if filtered then List.filter (pred f) xs else xs in
+      let s = (if ys = [] then "1 " else "0 ") ^ show_its (cut cs (spec ys d0 sc)) in
+      print_endline ("M " ^ m ^ " S " ^ s)
     | "L" :: k :: f :: d0 :: items :: script :: [] ->
       let kind = if k = "S" then Sized else Unsized in
       let xs = parse_items items in
